@@ -1047,12 +1047,32 @@ def register(R):
         go = [e for e in flat(evs) if e.kind == 'ext' and e.name == 'client.get_object']
         rb = [e for e in evs if e.kind == 'call' and e.name.endswith('invoke_progress_callbacks')]
         return {
+            **retry_clauses(l1.engine, evs, ['C03']),
             'one_get_object_per_attempt': (B(len(go) == 1), ['C03', 'C02']),
             # progress of the abandoned attempt is taken back: exactly start_index - current_index
             'abandoned_attempt_progress_is_taken_back': (B(len(rb) >= 1) if not rb else (
                 to_int_term(rb[-1].extra['env']['bytes_transferred']) ==
                 to_int_term(l1.st.env['start_index']) - to_int_term(l1.st.env['current_index'])), ['C09']),
         }
+
+    STREAM_ERRORS = ('socket.timeout', 'ConnectionError', 'botocore.exceptions.ReadTimeoutError',
+                     'botocore.exceptions.IncompleteReadError', 'botocore.exceptions.ResponseStreamingError')
+
+    def is_stream_error(eng, exc):
+        return any(eng.exc_is_subclass(exc.cls, b) for b in STREAM_ERRORS)
+    R.is_stream_error = is_stream_error
+
+    def retry_clauses(eng, evs, props):
+        """C03, for a completed iteration of a retry loop (= an attempt that was abandoned and is retried): every
+        exception that ended it is a stream-level error -- never e.g. a file-system OSError of the destination or an
+        error of a user callback.  One clause per exception class seen."""
+        out = {}
+        for e in flat(evs):
+            x = e.extra.get('raised') if e.kind in ('ext', 'call') else None
+            if x is not None:
+                out[f'only_retryable_stream_errors_are_retried.{x.cls}'] = (B(is_stream_error(eng, x)), props)
+        return out
+    R.retry_clauses = retry_clauses
 
     def got_outer_havoc(l):
         havoc_stream_link(l)
@@ -1515,7 +1535,7 @@ def register(R):
                checks=copy_part_checks, raises={'Exception': lambda c: {}}, raise_when={'Exception': lambda c: None},
                loops={0: trivial_loop()}, returns=ExtT('part'))
     R.external('argval', upper=ExtSpec(returns=ExtT('str'), pure=True))
-    R.external('progress_cb', **{'()': ExtSpec(raises=('Exception',), user_code=True)})
+    R.external('progress_cb', **{'()': ExtSpec(raises=('Exception', 'OSError'), user_code=True)})
 
 
 SUBMIT_ROOTS = []
